@@ -70,7 +70,9 @@ class Target(object):
             self.outs = [['central.drug_concentration'],
                          ['central.drug_amount'],
                          ['central.drug_amount',
-                          'central.drug_concentration']]
+                          'central.drug_concentration'],
+                         ['central.drug_concentration',
+                          'central.drug_amount']]
         else:
             rng = np.random.default_rng(12345)
             while True:
@@ -80,7 +82,7 @@ class Target(object):
             self.am = am
             self.comps = [(c, s + '_amount') for c, s in am.comps]
             c = am.output_candidates()
-            self.outs = [[c[0]], [c[1], c[2]], [c[3], c[0]]]
+            self.outs = [[c[0]], [c[1], c[2]], [c[3], c[0]], [c[2], c[1]]]
 
     def fresh(self):
         if self.which == 'library':
